@@ -143,5 +143,6 @@ class SocketSpawn(SpawnBase):
                 s = self._decoder.decode(s, final=False)
                 self._log(s, 'read')
                 return s
-        except socket.timeout:
+        except (socket.timeout, BlockingIOError):
+            # (BlockingIOError: timeout 0 puts the socket in non-blocking mode)
             raise TIMEOUT("Timeout exceeded.")
